@@ -263,6 +263,26 @@ def run_case(c):
                     t6.run()
                     if np.abs(np.array(t6.dos)[::-1] - totd).max() > 1e-9 * max(totd.max(), 1e-12):
                         bad("dos_grid_order", "run_total_dos on a descending grid differs from the same points in ascending order by %.3e" % np.abs(np.array(t6.dos)[::-1] - totd).max(), tet=tet, grid="descending", **feat)
+            if tet:
+                # a ProjectedDos object used again (another draw area, then the first one): same answers as its first run, and still additive
+                from phonopy.phonon.dos import ProjectedDos as PD2
+
+                for xyz in (True, False):
+                    p2_ = PD2(ph.mesh, use_tetrahedron_method=True, xyz_projection=xyz)
+                    p2_.set_draw_area(kw["freq_min"], kw["freq_max"], kw["freq_pitch"])
+                    p2_.run()
+                    first = np.array(p2_.projected_dos).copy()
+                    p2_.set_draw_area(kw["freq_min"], kw["freq_max"], kw["freq_pitch"] * 2)
+                    p2_.run()
+                    p2_.set_draw_area(kw["freq_min"], kw["freq_max"], kw["freq_pitch"])
+                    p2_.run()
+                    third = np.array(p2_.projected_dos)
+                    obs["n_pdos_object_rerun"] = obs.get("n_pdos_object_rerun", 0) + 1
+                    if first.shape != third.shape or np.abs(first - third).max() > 1e-12 * max(np.abs(first).max(), 1e-300):
+                        bad("pdos_rerun_differs", "ProjectedDos (tetrahedron, xyz=%s) run again on the same object differs from its first run by %.3e (max %.3e)" % (
+                            xyz, np.abs(first - third).max() if first.shape == third.shape else np.inf, np.abs(first).max()), tet=tet, xyz=xyz, **feat)
+                    if third.shape[1] == len(tot) and np.abs(third.sum(axis=0) - tot).max() > 1e-9 * max(tot.max(), 1e-12):
+                        bad("pdos_additivity", "ProjectedDos object after a re-run: sum of %s PDOS differs from the total DOS by %.3e" % ("xyz" if xyz else "atom", np.abs(third.sum(axis=0) - tot).max()), tet=tet, xyz=xyz, rerun=True, **feat)
             rng = np.random.default_rng(c["seed"])
             ph.run_projected_dos(direction=rng.standard_normal(3).tolist(), use_tetrahedron_method=tet, sigma=None if tet else sigma, **kw)
             pdd = np.array(ph.get_projected_dos_dict()["projected_dos"])
